@@ -22,6 +22,11 @@ CASES = [
          fieldpath={"self.chans": "chans"}, method={"len": "List.length {0}"}, call={"Msg::Go": "{0}"}, sendlog={"send": ("sent", "({0}, {1})")}, scalar="Rat"),
     dict(name="t_state", file="x.rs", impl=r"impl P \{", fn="state", sig="{S : Type} (self_state : Option S) : Option S", fieldpath={"self.state": "self_state"}, scalar="Rat"),
     dict(name="t_is_w", file="x.rs", impl=r"impl P \{", fn="is_w", sig="(s : Status) : Bool", pctor={"Status::Wasted": "Status.wasted"}, transparent_ctors=("Ok",), scalar="Rat"),
+    dict(name="t_collect_present", file="x.rs", impl=r"impl P \{", fn="collect_present", imperative=True, sig="(table : List (Nat × Nat)) (ids : List Nat) : List Nat",
+         fieldpath={"self.table": "table"}, method={"get": "mapGet {0} {1}"}, call={"Vec::new": "[]"}, scalar="Rat"),
+    # a loop whose only effect the reader has no rule for must make the function unreadable, never be dropped
+    dict(name="t_effect_not_understood", file="x.rs", impl=r"impl P \{", fn="effect_not_understood", imperative=True, sig="(ids : List Nat) : Nat",
+         method={"len": "List.length {0}", "audit": "()"}, scalar="Rat"),
     dict(name="t_mk", file="x.rs", impl=r"impl P \{", fn="mk", sig="(a : Nat) : P", struct={"P": ("P", {"a": "a", "b": "b"})}, Self="P", scalar="Rat"),
 ]
 
